@@ -89,6 +89,19 @@ class DslProp(PropBase):
             p = None
             while p is None or not hasattr(p, "distribution"):
                 p = gen.atom()
+            if gen.rich and rng.random() < 0.25:
+                # a joint with several children of one name: copies of a variable in different worlds, a factual variable next to its
+                # counterfactual (an expansion that looks children up by base name loses a factor)
+                from y0.dsl import P, Variable
+                n1, n2, n3 = rng.sample(gen.names, 3)
+                a1, a2, a3 = Variable(n1), Variable(n2), Variable(n3)
+                ch = rng.choice([[a1 @ a3, a1 @ ~a3], [a1 @ a3, a1 @ ~a3, a2], [a1, a1 @ a3], [a1, a1 @ ~a3, a2], [a1 @ a3, a2 @ a3, a1 @ ~a3],
+                                 [a1 @ a2, a1 @ a3, a2], [a1 @ a3, a2 @ a1]])
+                ch = list(ch); rng.shuffle(ch)
+                try:
+                    p = P(*ch)
+                except Exception:  # noqa: BLE001
+                    pass
             c["a"] = GE.to_tree(p)
             if kind == "chain_expand":
                 c["reorder"] = rng.random() < 0.7
